@@ -180,7 +180,7 @@ def run(ctx) -> None:
     ideal, dev_expect, dev_state = scenarios(ctx, 6 if quick else 8, 4 if quick else 5, 3)
     ctx.exhaustive = True
     ctx.extra["tlc_deviation_counterexample"] = dev_state
-    centers = yaw.AngularCoordinates(np.deg2rad([[10.5, 0.0], [11.5, 0.0]]))
+    centers = yaw.AngularCoordinates(np.deg2rad([[11.0, 0.0]]))  # one centre: every record belongs to it (an empty centre is C09 business)
     todo = []
     for p, reqs, chunks in ideal:
         L, CS, kind, passes = p["L"], p["CS"], str(p["Kind"]), p["Passes"]
